@@ -59,5 +59,271 @@ example :
     wSwap.verifyRefFull Variant.good mainRef = .ok (some 1) ∧
     wSwap.isPolK 1 2 = true ∧ wSwap.polInForce 1 (some wPol) 2 = some wPol := by decide
 
+/-- the list `LoadState` chains over after its first element -/
+theorem range_drop_one (W : World) (f0 req : Nat) (hle : f0 ≤ req)
+    (hf0 : ∃ e, W.log[f0]? = some e ∧ isUpdater e = true ∧ e.ref = policyRef) :
+    (W.range f0 req policyRef).drop 1 = W.range (f0 + 1) req policyRef := by
+  obtain ⟨e, he, hu, hr⟩ := hf0
+  unfold range
+  have hlen : f0 < (List.range (req + 1)).length := by simp; omega
+  rw [List.drop_eq_getElem_cons hlen]
+  simp only [List.getElem_range]
+  rw [List.filter_cons_of_pos (by simp [he, hu, hr])]
+  rfl
+
+/-- **`LoadState` returns the state its entry records, reached through an unbroken chain from the
+first policy entry of the log**: if `LoadState` succeeds for a policy entry after the first one,
+the result is the state that entry records, it passed `State.Verify`, and every policy entry up to
+it was accepted by `VerifyNewState` of the state recorded by the policy entry immediately before it. -/
+theorem loadState_chain (W : World) (hpo : W.PolicyRefOnly) (f0 req : Nat) (P : Policy) (e : LogEntry)
+    (hf : W.firstFor policyRef = some f0) (hlt : f0 < req)
+    (he : W.log[req]? = some e) (hr : e.ref = policyRef) (hu : isUpdater e = true)
+    (h : W.loadState req = .ok P) :
+    ∃ P0, W.loadRaw f0 = .ok P0 ∧ W.loadRaw req = .ok P ∧ P.verify = .ok () ∧
+      ∀ k, f0 < k → k ≤ req → W.isPolK f0 k = true → ∃ nxt, W.loadRaw k = .ok nxt ∧
+        ∀ c, W.polInForce f0 (some P0) k = some c → c.verifyNewState nxt = .ok () := by
+  -- the first policy entry is a reference updater for the policy reference
+  have hf0 : ∃ e0, W.log[f0]? = some e0 ∧ isUpdater e0 = true ∧ e0.ref = policyRef := by
+    unfold firstFor at hf
+    have hp := List.find?_some hf
+    split at hp
+    · cases hp
+    · rename_i e0 he0
+      simp only [Bool.and_eq_true, beq_iff_eq] at hp
+      exact ⟨e0, he0, hp.1, hp.2⟩
+  unfold loadState at h
+  rw [hf] at h
+  have hne : (f0 == req) = false := by simp; omega
+  have hnl : ¬ req < f0 := by omega
+  simp only [hne, Bool.false_eq_true, if_false, hnl, bind, Except.bind] at h
+  split at h
+  · cases h
+  · rename_i P0 hP0
+    split at h
+    · cases h
+    · rename_i last hlast
+      simp only [he, hr, beq_self_eq_true, if_true] at h
+      split at h
+      · cases h
+      · rename_i u hver
+        simp only [pure, Except.pure, Except.ok.injEq] at h
+        subst h
+        rw [range_drop_one W f0 req (by omega) hf0] at hlast
+        have hinv : CInv W f0 req P0 (f0 + 1) (W.range (f0 + 1) req policyRef) P0 := by
+          refine ⟨by omega, by omega, range_sorted W _ _ _, ?_, ?_, ?_, ?_⟩
+          · intro k hk
+            obtain ⟨h1, h2, _⟩ := range_mem_spec W _ _ _ k hk
+            exact ⟨h1, h2⟩
+          · intro k hk e' he'
+            obtain ⟨_, _, e'', he'', hu''⟩ := range_mem_spec W _ _ _ k hk
+            rw [he'] at he''; cases he''
+            exact hu''
+          · intro k hk1 hk2 hk3
+            unfold isPolK at hk3
+            split at hk3
+            · rename_i e' he'
+              simp only [Bool.and_eq_true, beq_iff_eq] at hk3
+              exact range_mem W _ _ _ k e' hk1 hk2 he' (by simp [isUpdater, hk3.1.1]) hk3.1.2
+            · cases hk3
+          · unfold polInForce
+            rw [lastBelow_none]
+            intro k hk
+            unfold isPolK
+            split
+            · have : ¬ f0 < k := by omega
+              simp [this]
+            · rfl
+        obtain ⟨h1, h2⟩ := chainStates_exact W hpo f0 req P0 _ _ _ _ hinv hlast
+        have hkind : e.kind = .ref := hpo req e he hr hu
+        have hpreq : W.isPolK f0 req = true := by simp [isPolK, he, hkind, hr, hlt]
+        have hreq : W.loadRaw req = .ok last := by
+          simp only [polInForce, lastBelow_step_pos _ req hpreq] at h2
+          cases hl : W.loadRaw req with
+          | ok Q => rw [hl] at h2; simp at h2; rw [h2]
+          | error x => rw [hl] at h2; simp at h2
+        refine ⟨P0, hP0, hreq, ?_, ?_⟩
+        · cases u; exact liftP_ok _ _ hver
+        · intro k hk1 hk2 hk3
+          have hmem : k ∈ W.range (f0 + 1) req policyRef := hinv.complete k (by omega) hk2 hk3
+          exact h1 k hmem hk3
+
+theorem lastBelow_eq_none (p : Nat → Bool) (m : Nat) (h : lastBelow p m = none) :
+    ∀ k, k < m → p k = false := by
+  intro k hk
+  unfold lastBelow at h
+  have := List.find?_eq_none.mp h k (by simp [below, hk])
+  simpa using this
+
+theorem loadRaw_policyAt (W : World) (p : Nat) (P : Policy) (h : W.loadRaw p = .ok P) :
+    W.policyAt p = some P := by
+  unfold loadRaw at h
+  split at h
+  · cases h
+  · rename_i Q hQ
+    split at h
+    · cases h
+    · cases h; exact hQ
+
+/-- the predicate of the unrestricted look-up `latestFor policyRef` -/
+def polUpd (W : World) (x : Nat) : Bool :=
+  match W.log[x]? with
+  | none => false
+  | some e => isUpdater e && e.ref == policyRef
+
+theorem latestFor_policy_eq (W : World) (m : Nat) :
+    W.latestFor policyRef m = lastBelow W.polUpd m := by
+  unfold latestFor lastBelow
+  congr 1
+  funext x
+  cases h : W.log[x]? <;> simp [polUpd, h]
+
+/-- **The state the walk starts from is the one its policy entry records**: whatever
+`LoadState` returns for the policy entry applicable to the first entry of the range is the state
+that entry records (reached, by `loadState_chain`, through an unbroken chain). -/
+theorem initialPolicy_records (W : World) (hpo : W.PolicyRefOnly) (first : Nat) (P : Policy)
+    (h : W.initialPolicy first = .ok (some P)) :
+    ∃ p fe, W.log[first]? = some fe ∧
+      (if isUpdater fe && fe.ref == policyRef then some first else W.latestFor policyRef first) = some p ∧
+      W.loadRaw p = .ok P := by
+  unfold initialPolicy at h
+  split at h
+  · cases h
+  · rename_i fe hfe
+    split at h
+    · cases h
+    · rename_i p hp
+      split at h
+      · rename_i Q hQ
+        cases h
+        refine ⟨p, fe, hfe, hp, ?_⟩
+        -- `p` is an updater entry of the policy reference
+        have hpe : ∃ e, W.log[p]? = some e ∧ isUpdater e = true ∧ e.ref = policyRef := by
+          split at hp
+          · rename_i hc
+            cases hp
+            simp only [Bool.and_eq_true, beq_iff_eq] at hc
+            exact ⟨fe, hfe, hc.1, hc.2⟩
+          · rw [latestFor_policy_eq] at hp
+            have hs := List.find?_some hp
+            unfold polUpd at hs
+            split at hs
+            · cases hs
+            · rename_i e he
+              simp only [Bool.and_eq_true, beq_iff_eq] at hs
+              exact ⟨e, he, hs.1, hs.2⟩
+        obtain ⟨e, he, hu, hr⟩ := hpe
+        unfold loadState at hQ
+        split at hQ
+        · exact hQ
+        · rename_i f0 hf0
+          split at hQ
+          · simp only [bind, Except.bind] at hQ
+            split at hQ
+            · cases hQ
+            · rename_i Q' hQ'
+              split at hQ
+              · cases hQ
+              · simp only [pure, Except.pure, Except.ok.injEq] at hQ
+                subst hQ; exact hQ'
+          · rename_i hne
+            split at hQ
+            · exact hQ
+            · rename_i hnl
+              have hlt : f0 < p := by
+                have : f0 ≠ p := by simpa using hne
+                omega
+              have hload : W.loadState p = .ok P := by
+                unfold loadState
+                rw [hf0]
+                simp only [hne, Bool.false_eq_true, if_false, hnl]
+                exact hQ
+              obtain ⟨_, _, h2, _⟩ := loadState_chain W hpo f0 p P e hf0 hlt he hr hu hload
+              exact h2
+      · cases h
+
+/-- **C01, the declarative "policy state immediately preceding the entry"**: for an entry of the
+range that is not itself a policy entry, the policy state under which the accepted walk judged it
+(`polInForce`, see `C01_relative_exact`) is the state recorded by the latest policy entry strictly
+before it in the whole log — Spec/C01's `policyBefore` — whether that entry lies inside the range
+or before it. -/
+theorem C01_policy_in_force_is_policyBefore (W : World) (hpo : W.PolicyRefOnly) (first : Nat)
+    (p0 : Option Policy) (hinit : W.initialPolicy first = .ok p0)
+    (j : Nat) (e : LogEntry) (hj : first ≤ j) (he : W.log[j]? = some e) (hne : e.ref ≠ policyRef)
+    (P : Policy) (hP : W.polInForce first p0 j = some P) :
+    W.policyBefore j = some P := by
+  cases hk : lastBelow (W.isPolK first) j with
+  | some k => exact polInForce_eq_policyBefore W first p0 j k P hpo hk hP
+  | none =>
+    simp only [polInForce, hk] at hP
+    subst hP
+    obtain ⟨p, fe, hfe, hsel, hload⟩ := initialPolicy_records W hpo first P hinit
+    have hnone := lastBelow_eq_none _ _ hk
+    -- no policy updater strictly between `first` and `j`
+    have hgap : ∀ x, first < x → x < j → W.polUpd x = false := by
+      intro x hx1 hx2
+      have hnx := hnone x hx2
+      unfold polUpd
+      cases hex : W.log[x]? with
+      | none => rfl
+      | some ex =>
+        simp only
+        cases hux : isUpdater ex with
+        | false => simp
+        | true =>
+          cases hrx : (ex.ref == policyRef) with
+          | false => simp
+          | true =>
+            have hkind := hpo x ex hex (by simpa using hrx) hux
+            simp [isPolK, hex, hkind, hrx, hx1] at hnx
+    have hlat : W.latestFor policyRef j = some p := by
+      rw [latestFor_policy_eq]
+      rcases Nat.lt_or_ge first j with hlt | hge
+      · rw [lastBelow_run' W.polUpd (first + 1) j (by omega) (fun x h1 h2 => hgap x (by omega) h2)]
+        cases hpf : W.polUpd first with
+        | true =>
+          rw [lastBelow_step_pos _ first hpf]
+          have : (isUpdater fe && fe.ref == policyRef) = true := by simpa [polUpd, hfe] using hpf
+          simp only [this, if_true] at hsel
+          exact hsel
+        | false =>
+          rw [lastBelow_step_neg _ first hpf, ← latestFor_policy_eq]
+          have : (isUpdater fe && fe.ref == policyRef) = false := by simpa [polUpd, hfe] using hpf
+          simp only [this, Bool.false_eq_true, if_false] at hsel
+          exact hsel
+      · have hjf : j = first := by omega
+        subst hjf
+        rw [hfe] at he; cases he
+        have : (isUpdater e && e.ref == policyRef) = false := by
+          have : (e.ref == policyRef) = false := by simpa using hne
+          simp [this]
+        simp only [this, Bool.false_eq_true, if_false] at hsel
+        rw [← latestFor_policy_eq]; exact hsel
+    unfold policyBefore
+    rw [hlat]
+    simp only [Option.bind_some]
+    exact loadRaw_policyAt W p P hload
+
+/-- executable form of `PolicyRefOnly` -/
+def policyRefOnlyB (W : World) : Bool :=
+  W.log.all (fun e => !(e.ref == policyRef && isUpdater e) || e.kind == .ref)
+
+theorem policyRefOnly_of_B (W : World) (h : W.policyRefOnlyB = true) : W.PolicyRefOnly := by
+  intro j e he hr hu
+  have := List.all_eq_true.mp h e (List.mem_of_getElem? he)
+  simpa [hr, hu] using this
+
+/-- non-vacuity of `loadState_chain`, `initialPolicy_records` and
+`C01_policy_in_force_is_policyBefore` on the hand-over history `wSwap`: the hypotheses hold, the
+second policy entry loads through the chain, the walk starts from the state entry 0 records, and
+for the push after the hand-over the state in force is `policyBefore`. -/
+example :
+    wSwap.policyRefOnlyB = true ∧
+    wSwap.firstFor policyRef = some 0 ∧
+    wSwap.loadState 2 = .ok ⟨wRoot, [wFile2]⟩ ∧
+    wSwap.initialPolicy 1 = .ok (some wPol) ∧
+    wSwap.polInForce 1 (some wPol) 1 = some wPol ∧ wSwap.policyBefore 1 = some wPol ∧
+    wSwap.polInForce 1 (some wPol) 3 = some ⟨wRoot, [wFile2]⟩ ∧
+    wSwap.policyBefore 3 = some ⟨wRoot, [wFile2]⟩ := by decide
+
 end World
 end Gittuf
